@@ -56,7 +56,7 @@ class StilFile:
                 capture = dict((k, v.replace('\n', '').replace('N', '-')) for k, v in call.parameters.items())
 
     def _maps(self, c):
-        interface = list(c.io_nodes) + [n for n in c.nodes if 'DFF' in n.kind]
+        interface = c.s_nodes  # ports, flip-flops and latches in the order all pattern arrays follow
         intf_pos = dict((n.name, i) for i, n in enumerate(interface))
         pi_map = [intf_pos[n] for n in self.signal_groups['_pi']]
         po_map = [intf_pos[n] for n in self.signal_groups['_po']]
